@@ -125,6 +125,21 @@ def run(tier):
         ok = oka0 and not oka1 and not oka2
         print("%-70s %s" % ("MonorailTrace explains a concurrent analyze, rejects two corruptions", "ok" if ok else "UNEXPECTED"))
         good &= ok
+        crec = None
+        for i in range(60):
+            r = freerun.scenario(bins, i, _random.Random(31337 + i))
+            if any(e["e"] == "exit" and e.get("ran") for e in r["events"]):
+                crec = r
+                break
+        if crec is None:
+            raise vlib.ToolError("no free-running scenario with a completed run")
+        okc0, _ = freerun.validate(crec, tmp)
+        wc = copy.deepcopy(crec); wc["idx"] = 906
+        e = next(x for x in wc["events"] if x["e"] == "exit" and x.get("ran")); e["ran"] = e["ran"][1:]
+        okc1, _ = freerun.validate(wc, tmp)
+        ok = okc0 and not okc1
+        print("%-70s %s" % ("MonorailTrace explains what a free-running run covered, rejects a dropped target", "ok" if ok else "UNEXPECTED"))
+        good &= ok
     finally:
         shutil.rmtree(tmp, ignore_errors=True)
     if not good:
